@@ -191,7 +191,9 @@ def check(tier, seed):
             R.nontrivial.add(C.case_key(case))
         bad = spec_check(case, I)
         if bad:
-            R.spec_violations.append((bad, {"case": case, "impl": I}))
+            small_ops = C.shrink_list(case["ops"], lambda ops: spec_check(dict(case, ops=ops), run_impl(dict(case, ops=ops))) is not None)
+            small = dict(case, ops=small_ops)
+            R.spec_violations.append((bad, {"case": small, "impl": run_impl(small)}))
         terms.append(coq_case(case, I))
         if len(R.samples) < 3 and nontrivial(case):
             R.samples.append(C.to_json({"case": case, "impl": obs_of(I)}))
